@@ -56,6 +56,7 @@ def check_property(pid, tier, seed):
     jobs = [(m, f, a, v, (pid,), sorted(active_regions), timeout_ms, tier == 'thorough') for (m, f, a, v) in units]
     results = chk.run_units(jobs, workers)
     n_ob = n_dis = 0
+    vacuity = []
     backends = {}
     solver_s = 0.0
     functions = {}
@@ -69,6 +70,12 @@ def check_property(pid, tier, seed):
         functions[u['key']] = {'sha256_16': u['sha'], 'paths': functions.get(u['key'], {}).get('paths', 0) + u['stats']['paths']}
         for ud in u['stats']['undecided']:
             undecided.append('%s: %s' % (u['unit'], ud))
+        can = u.get('canary') or {}
+        vacuity.append({'unit': u['unit'], 'paths': u['stats']['paths'], 'path_ends_probed': can.get('path_ends_probed'), 'not_vacuous': can.get('not_vacuous')})
+        if can.get('path_ends_probed') and not can.get('not_vacuous'):
+            undecided.append('%s: VACUOUS - `False` is provable at every probed path end (contradictory requires/invariant?)' % u['unit'])
+        if not u.get('n_generated') and not u['stats']['undecided']:
+            undecided.append('%s: no obligation was generated' % u['unit'])
         for r in u['results']:
             n_ob += 1
             solver_s += r['seconds']
@@ -80,6 +87,23 @@ def check_property(pid, tier, seed):
                                     'path': ' '.join(r['path'][-8:]), 'goal': r['goal'][:300], 'backend': r['backend']})
             else:
                 failing.setdefault((u['key'], r['name']), []).append((u, r))
+
+    # ---- ledger: every clause that the committed baseline generated must be generated again (vacuity guard)
+    clause_names = sorted(set(r['name'] for u in results if not u['error'] for r in u['results'] if r['kind'] not in ('canary',)))
+    ledger_path = os.path.join(ROOT, 'obligations.lock.json')
+    if os.environ.get('VERIF_WRITE_LEDGER'):
+        led = json.load(open(ledger_path)) if os.path.exists(ledger_path) else {}
+        led[pid] = clause_names
+        json.dump(led, open(ledger_path, 'w'), indent=0, sort_keys=True)
+    elif os.path.exists(ledger_path):
+        led = json.load(open(ledger_path)).get(pid)
+        if led is not None:
+            import re
+            norm = lambda n: re.sub(r'@\d+', '@', n)          # loop labels carry line numbers
+            have = set(norm(n) for n in clause_names)
+            missing = sorted(set(norm(n) for n in led) - have)
+            for m in missing[:12]:
+                undecided.append('clause %s of the committed ledger was not generated on this tree (function changed shape, or paths vanished)' % m)
 
     # ---- static analyses that produce obligations (C19 frame analysis)
     static_rows = None
@@ -199,6 +223,7 @@ def check_property(pid, tier, seed):
         'known_findings_reported': known_printed,
         'bounded': bounded_cov,
         'static_analysis': static_rows,
+        'vacuity_guard': vacuity,
         'explanation': registry.EXPLANATIONS.get(pid, '') if hasattr(registry, 'EXPLANATIONS') else '',
     }
     if bounded_cov:
